@@ -6,13 +6,18 @@ package main
 import (
 	"bytes"
 	"compress/gzip"
+	"crypto/sha256"
+	"encoding/json"
 	"fmt"
 	"io"
 	"log/slog"
 	"net/http"
 	"net/http/httptest"
 	"net/url"
+	"os"
+	"path/filepath"
 	"runtime"
+	"sort"
 	"strconv"
 	"strings"
 	"sync"
@@ -308,8 +313,115 @@ func documents(depth int) []doc {
 	return out
 }
 
+// ---------- free-running pass (this harness built with -race) ----------
+
+// raceMode: one proxy handler in front of a real backend; after one sequential round (the reference), several
+// clients fetch large HTML documents (rewritten) and CSS files (passed through) at the same time, reading slowly.
+func raceMode() {
+	pages := map[string][]byte{}
+	mk := func(tag string, n int) []byte {
+		var b bytes.Buffer
+		b.WriteString("<!DOCTYPE html><html><head><title>" + tag + "</title></head><body>")
+		for i := 0; b.Len() < n; i++ {
+			fmt.Fprintf(&b, "<p>%s paragraph %d é &amp; entities</p>\n", tag, i)
+		}
+		b.WriteString("</body></html>")
+		return b.Bytes()
+	}
+	for i := 0; i < 4; i++ {
+		pages[fmt.Sprintf("/page%d", i)] = mk(fmt.Sprintf("page-%d", i), 300<<10)
+		pages[fmt.Sprintf("/style%d.css", i)] = bytes.Repeat([]byte(fmt.Sprintf(".c%d{color:#%06x}\n", i, i*1118481)), 12000)
+	}
+	backend := httptest.NewServer(http.HandlerFunc(func(rw http.ResponseWriter, r *http.Request) {
+		body, ok := pages[r.URL.Path]
+		if !ok {
+			http.NotFound(rw, r)
+			return
+		}
+		if strings.HasSuffix(r.URL.Path, ".css") {
+			rw.Header().Set("Content-Type", "text/css")
+		} else {
+			rw.Header().Set("Content-Type", "text/html; charset=utf-8")
+			rw.Header().Set("Content-Security-Policy", "script-src 'nonce-"+strings.Trim(r.URL.Path, "/")+"'")
+		}
+		rw.Write(body)
+	}))
+	defer backend.Close()
+	u, _ := url.Parse(backend.URL)
+	front := httptest.NewServer(proxy.New(slog.New(slog.NewTextHandler(io.Discard, nil)), "127.0.0.1", 0, u))
+	defer front.Close()
+	fetch := func(path string, slow bool) (string, error) {
+		res, err := http.Get(front.URL + path)
+		if err != nil {
+			return "", err
+		}
+		defer res.Body.Close()
+		var b bytes.Buffer
+		buf := make([]byte, 8<<10)
+		for {
+			n, err := res.Body.Read(buf)
+			b.Write(buf[:n])
+			if slow {
+				runtime.Gosched()
+			}
+			if err == io.EOF {
+				break
+			}
+			if err != nil {
+				return "", err
+			}
+		}
+		return fmt.Sprintf("%d|%s|%x", res.StatusCode, res.Header.Get("Content-Length"), sha256.Sum256(b.Bytes())), nil
+	}
+	var paths []string
+	for p := range pages {
+		paths = append(paths, p)
+	}
+	sort.Strings(paths)
+	ref := map[string]string{}
+	mismatch := ""
+	for _, p := range paths {
+		r, err := fetch(p, false)
+		if err != nil {
+			mismatch = fmt.Sprintf("sequential fetch of %s failed: %v", p, err)
+		}
+		ref[p] = r
+	}
+	const clients, rounds = 8, 6
+	var wg sync.WaitGroup
+	var mu sync.Mutex
+	fetched := 0
+	for g := 0; g < clients; g++ {
+		g := g
+		wg.Add(1)
+		go func() {
+			defer wg.Done()
+			for k := 0; k < rounds*len(paths); k++ {
+				p := paths[(g+k)%len(paths)]
+				r, err := fetch(p, true)
+				mu.Lock()
+				fetched++
+				if err != nil {
+					mismatch = fmt.Sprintf("client %d: fetch of %s failed: %v", g, p, err)
+				} else if r != ref[p] {
+					mismatch = fmt.Sprintf("client %d: %s fetched while other responses were in flight differs from the same page fetched alone (%s vs %s)", g, p, r, ref[p])
+				}
+				mu.Unlock()
+			}
+		}()
+	}
+	wg.Wait()
+	b, _ := json.Marshal(map[string]any{"clients": clients, "documents": len(paths), "overlapping_fetches": fetched, "mismatch": mismatch})
+	os.WriteFile(filepath.Join(os.Getenv("VERIF_SCRATCH"), "race.json"), b, 0o644)
+}
+
 func main() {
+	if len(os.Args) > 1 && os.Args[len(os.Args)-1] == "race" {
+		raceMode()
+		return
+	}
 	run = vlib.Start("C20", "exploration")
+	run.RacePass("between overlapping responses through one live-reload proxy handler")
 	encs := []string{"", "gzip", "br", "zstd"}
 	cts := []string{"text/html", "text/html; charset=utf-8", "application/json", "text/plain", ""}
 	csps := []struct{ csp, nonce string }{
@@ -380,6 +492,27 @@ func main() {
 			jobs = append(jobs, job{c, d})
 		}
 		jobs = append(jobs, job{config{"gzip", "text/html", "", "", true, false, true}, d}, job{config{"", "application/json", "", "", false, false, true}, d})
+	}
+	// histories through ONE handler: the same document twice in a row under two different header configurations
+	// (nonce after no nonce, another nonce, another encoding), so that anything the handler remembers about the
+	// previous response meets a response that differs only in its headers
+	{
+		w := newWorker()
+		hist := 0
+		for _, d := range rep {
+			for _, e := range []string{"", "gzip"} {
+				for i := range csps {
+					for j := range csps {
+						for _, c := range []config{{e, "text/html", csps[i].csp, csps[i].nonce, false, false, true}, {e, "text/html; charset=utf-8", csps[j].csp, csps[j].nonce, false, false, true}} {
+							w.check(c, d.name+" (same document as the previous response)", []byte(d.text))
+							hist++
+						}
+					}
+				}
+			}
+		}
+		w.backend.Close()
+		run.Cov["same_document_consecutive_responses"] = hist
 	}
 	var next atomic.Int64
 	var wg sync.WaitGroup
